@@ -14,8 +14,9 @@ visitors compare node objects; two nodes of a parsed routine are never equal bec
   `visit_Conditional` registers the condition, visits both branches from the same candidate set and unites the results;
   `visit_Loop` registers the bounds, discards the DO variable from the candidates (if active), visits the body and
   discards the DO variable from the reads (if it was active on entry); `visit_WhileLoop` registers the condition;
-  SELECT CASE and ASSOCIATE have no rule: their children are visited one after the other (the selector / case
-  expression is not registered, case blocks are treated as a sequence).
+  ASSOCIATE has no rule: its children are visited (selectors are not registered).  SELECT CASE (`MultiConditional`) is
+  a `LeafNode`: both visitors treat it as one statement with its attached sets and never visit the nodes inside, so an
+  inspection node inside a SELECT CASE never stops `FindWrites` and never starts `FindReads`.
 -/
 namespace LokiModel.C27
 open LokiModel.Fir LokiModel.C26
@@ -24,6 +25,24 @@ def sinter (a b : SymSet) : SymSet := a.filter fun x => b.contains x
 
 /-- `loop.uses_symbols & loop.defines_symbols` -/
 def lcd (c : Ctx) (loop : Stmt) : SymSet := sinter (du c loop).2 (du c loop).1
+
+/-! ### node numbering (pre-order) -/
+
+mutual
+def sizeS : Stmt → Nat
+  | .doLoop _ _ _ _ body => 1 + sizeL body
+  | .while _ body => 1 + sizeL body
+  | .ifte _ t e => 1 + sizeL t + sizeL e
+  | .select _ cases d => 1 + sizeC cases + sizeL d
+  | .assoc _ body => 1 + sizeL body
+  | _ => 1
+def sizeL : List Stmt → Nat
+  | [] => 0
+  | s :: r => sizeS s + sizeL r
+def sizeC : List (List Int × List Stmt) → Nat
+  | [] => 0
+  | (_, b) :: r => sizeL b + sizeC r
+end
 
 /-! ### FindWrites -/
 
@@ -45,7 +64,10 @@ def fwS (c : Ctx) (stop : Nat) (σ : FW) : Stmt → FW
       fwL c stop σ2 body
   | .while _ body => fwL c stop (σ.enter stop) body
   | .ifte _ t e => fwL c stop (fwL c stop (σ.enter stop) t) e
-  | .select _ cases d => fwL c stop (fwC c stop (σ.enter stop) cases) d
+  | .select e cases d =>
+      -- `MultiConditional` is a LeafNode: handled by `visit_LeafNode` with its own attached sets, never descended into
+      let σ1 := (σ.enter stop).leaf (du c (.select e cases d)).1
+      { σ1 with ctr := σ1.ctr + (sizeC cases + sizeL d) }
   | .assoc _ body => fwL c stop (σ.enter stop) body
   | .assign l r => (σ.enter stop).leaf (du c (.assign l r)).1
   | .callSub g args => (σ.enter stop).leaf (du c (.callSub g args)).1
@@ -56,9 +78,6 @@ def fwS (c : Ctx) (stop : Nat) (σ : FW) : Stmt → FW
 def fwL (c : Ctx) (stop : Nat) (σ : FW) : List Stmt → FW
   | [] => σ
   | s :: r => fwL c stop (fwS c stop σ s) r
-def fwC (c : Ctx) (stop : Nat) (σ : FW) : List (List Int × List Stmt) → FW
-  | [] => σ
-  | (_, b) :: r => fwC c stop (fwL c stop σ b) r
 end
 
 def findWrites (c : Ctx) (ir : List Stmt) (node : Nat) : SymSet :=
@@ -97,7 +116,9 @@ def frS (c : Ctx) (start : Nat) (σ : FR) : Stmt → FR
       let σ3 := frL c start σ2 body
       if active0 then { σ3 with reads := σ3.reads.filter (· != (v, "")) } else σ3
   | .while cnd body => frL c start ((σ.enter start).regReads (syms (varsEx cnd))) body
-  | .select _ cases d => frL c start (frC c start (σ.enter start) cases) d
+  | .select e cases d =>
+      let σ1 := (σ.enter start).leaf (du c (.select e cases d))
+      { σ1 with ctr := σ1.ctr + (sizeC cases + sizeL d) }
   | .assoc _ body => frL c start (σ.enter start) body
   | .assign l r => (σ.enter start).leaf (du c (.assign l r))
   | .callSub g args => (σ.enter start).leaf (du c (.callSub g args))
@@ -108,9 +129,6 @@ def frS (c : Ctx) (start : Nat) (σ : FR) : Stmt → FR
 def frL (c : Ctx) (start : Nat) (σ : FR) : List Stmt → FR
   | [] => σ
   | s :: r => frL c start (frS c start σ s) r
-def frC (c : Ctx) (start : Nat) (σ : FR) : List (List Int × List Stmt) → FR
-  | [] => σ
-  | (_, b) :: r => frC c start (frL c start σ b) r
 end
 
 /-- `read_after_write_vars(ir, inspection_node)` with the inspection node given by its pre-order index in `ir` -/
@@ -118,22 +136,6 @@ def readAfterWrite (c : Ctx) (ir : List Stmt) (node : Nat) : SymSet :=
   (frL c node { ctr := 0, active := false, reads := [], cand := findWrites c ir node } ir).reads
 
 /-! ### enumeration used by the driver -/
-
-mutual
-def sizeS : Stmt → Nat
-  | .doLoop _ _ _ _ body => 1 + sizeL body
-  | .while _ body => 1 + sizeL body
-  | .ifte _ t e => 1 + sizeL t + sizeL e
-  | .select _ cases d => 1 + sizeC cases + sizeL d
-  | .assoc _ body => 1 + sizeL body
-  | _ => 1
-def sizeL : List Stmt → Nat
-  | [] => 0
-  | s :: r => sizeS s + sizeL r
-def sizeC : List (List Int × List Stmt) → Nat
-  | [] => 0
-  | (_, b) :: r => sizeL b + sizeC r
-end
 
 mutual
 /-- all loops (DO and DO WHILE) in pre-order -/
